@@ -134,7 +134,7 @@ def main(argv):
             f.write(base64.b64decode(rp.get("json_document_b64", "")) if rp.get("json_document_b64") else rp.get("json_document", "").encode())
         args = ["-doc", tmp] + (["-kind", rp["kind"]] if rp.get("kind") and rp.get("case", {}).get("t") != "RT" else [])
     else:
-        nrt, ndoc = (40, 110) if c.tier == "quick" else (400, 1500)
+        nrt, ndoc = (32, 96) if c.tier == "quick" else (300, 1200)
         args = ["-seed", str(c.rng.next()), "-nrt", str(nrt), "-ndoc", str(ndoc)]
     # run under an address-space limit: huge counts / deep nesting must not take the process down
     cmd = "ulimit -v 8000000; exec %s %s" % (binary, " ".join(args))
